@@ -363,9 +363,20 @@ class Writer:
                 self.assigns.setdefault(n.value.func.value.id, []).append((n.value.args[0], n))
         self.masked: list[str] = []
         self.aliases: set[str] = set()
+        # `tdat = info._info` names another record (labels are that record's attributes); `pos = cube.origin` names a value
+        # object of this record (labels are `origin.x`): decided by the annotation of the attribute
+        self.alias_prefix: dict[str, str] = {}
         for name, lst in self.assigns.items():
-            if any(isinstance(v, ast.Attribute) and isinstance(v.value, ast.Name) and v.value.id in self.recvars for v, _ in lst):
+            srcs = [v for v, _ in lst if isinstance(v, ast.Attribute) and isinstance(v.value, ast.Name) and v.value.id in self.recvars]
+            if srcs:
                 self.aliases.add(name)
+                prefixes = set()
+                for v in srcs:
+                    types = {c[v.attr].strip('\'"') for c in ann.values() if v.attr in c}
+                    types = {t[9:-1].strip('\'"') if t.startswith('Optional[') and t.endswith(']') else t for t in types}
+                    prefixes.add('' if not types or any(t in ann for t in types) else v.attr)
+                # mixed definitions keep the label of the attribute alone (as before)
+                self.alias_prefix[name] = prefixes.pop() if len(lst) == len(srcs) and len(prefixes) == 1 else ''
 
     def attr_chain(self, e: ast.AST) -> tuple[str, list[str]] | None:
         parts: list[str] = []
@@ -383,6 +394,8 @@ class Writer:
         ch = self.attr_chain(e)
         if ch is not None and ch[1] and (ch[0] in self.recvars or ch[0] in self.aliases):
             parts = [p for p in ch[1]]
+            if self.alias_prefix.get(ch[0]):
+                parts = [self.alias_prefix[ch[0]]] + parts
             if parts and parts[-1] == 'value':
                 parts = parts[:-1]
             if not parts:
